@@ -49,10 +49,59 @@ var c04Focus = []string{
 	"  {% set q = 1 %}\n\n\n{{ q }}  {% if q %}\n\n y {% endif %}",
 	"{% macro m(a) %}{% cycle 1 2 %}{{ a }}{% endmacro %}{{ m(s) }}{{ m(i) }}",
 	"{% for i in l %}{% include 'inc.tpl' %}{% endfor %}",
+	// list literals are values of one evaluation, not of the template
+	"{% for q in [1, 2, 3] reversed %}{{ q }}{% endfor %}",
+	"{% for q in [3, 1, 2] sorted %}{{ q }}{% endfor %}{% for q in [3, 1, 2] %}{{ q }}{% endfor %}",
+	"{% set ll = [3, 1, 2] %}{% for q in ll sorted %}{{ q }}{% endfor %}{{ ll.0 }}{% for q in ll reversed %}{{ q }}{% endfor %}{{ ll.0 }}",
+	"{% with ll=[\"b\", \"a\", \"c\"] %}{% for q in ll reversed sorted %}{{ q }}{% endfor %}{{ ll.0 }}{{ ll|first }}{% endwith %}",
+	"{% macro lm(v=[2, 1]) %}{% for q in v sorted %}{{ q }}{% endfor %}{{ v.0 }}{% endmacro %}{{ lm() }}{{ lm() }}",
+	"{% for q in [true, false] reversed %}{{ q }}{% endfor %}{{ [1.5, 0.5]|first }}{% for q in [1.5, 0.5] sorted %}{{ q }}{% endfor %}{{ [1.5, 0.5]|first }}",
+}
+
+// c04FailSites: executions that fail inside a filter, at a site chosen by the context; the error of
+// each execution must name its own site, whatever failed earlier (in this or another template)
+func c04FailSites(cfg Config, res *Result, rng *RNG) {
+	sites := failSites()
+	res.hist(fmt.Sprintf("fail-sites=%d", len(sites)))
+	rounds := 2
+	if cfg.Thorough() {
+		rounds = 10
+	}
+	for r := 0; r < rounds; r++ {
+		for _, s := range sites {
+			src, l1, l2 := failTemplate(s, rng.Intn(4), 1+rng.Intn(4))
+			set := pongo2.NewSet("f", &memLoader{files: map[string]string{}})
+			tpl, err := set.FromString(src)
+			if err != nil {
+				continue
+			}
+			res.Cases++
+			res.DistinctNontrivial++
+			hist := ""
+			for j := 0; j < 4; j++ {
+				first := rng.Bool()
+				want := l2
+				if first {
+					want = l1
+				}
+				hist += fmt.Sprint(first, " ")
+				var e error
+				func() {
+					defer func() { recover() }()
+					_, e = tpl.Execute(failCtx(first))
+				}()
+				if msg := failCheck(e, s, want); msg != "" {
+					res.add(Finding{Kind: "oracle", Proj: "history", Sig: "c04-error-depends-on-history", Case: fmt.Sprintf("src=%q executions first=%s", src, hist), Impl: msg, Model: "the error names the filter that failed in this execution"})
+					break
+				}
+			}
+		}
+	}
 }
 
 func suiteC04(cfg Config, res *Result) {
-	res.Rule = "one compiled template executed n = 2..5 times with a mix of contexts (equal and different, some failing: invalid key, division by zero via the context), for grammar-generated programs over every modelled tag plus programs focused on cycle / ifchanged / whitespace options / macros / include, under all four TrimBlocks x LStripBlocks settings (also toggled between executions); direct oracle: every result equals the first render of a freshly compiled copy with the same context and options; non-trivial = history containing two equal contexts; distinct by (program, history)"
+	defer c04FailSites(cfg, res, NewRNG(cfg.Seed^0xfa11))
+	res.Rule = "failing executions: for every registered filter and every argument shape that makes it fail, a template with two such sites on different lines chosen by the context, executed 4 times: each error names the site that failed in that execution; one compiled template executed n = 2..5 times with a mix of contexts (equal and different, some failing: invalid key, division by zero via the context), for grammar-generated programs over every modelled tag plus programs focused on cycle / ifchanged / whitespace options / macros / include, under all four TrimBlocks x LStripBlocks settings (also toggled between executions); direct oracle: every result equals the first render of a freshly compiled copy with the same context and options; non-trivial = history containing two equal contexts; distinct by (program, history)"
 	n := 2500
 	if cfg.Thorough() {
 		n = 40000
